@@ -71,7 +71,8 @@ def tree_desc(draw, max_top=3, max_depth=3, allow_empty=False, family_filter=Non
     bp = {"name": draw(ini_text), "short": draw(ini_text), "version": draw(ti_version)} if layered else None
     arch = draw(st.one_of(gen.arch_pool, st.sampled_from(["src", "src", "x86_64"])))
     platforms = draw(st.lists(platform_name, max_size=3, unique=True))
-    ts = draw(timestamps if timestamps is not None else st.one_of(st.integers(1, 2 ** 31), st.integers(-5, -1), st.integers(2 ** 31, 2 ** 40), st.just(1386857206)))
+    ts = draw(timestamps if timestamps is not None else st.one_of(st.integers(1, 2 ** 31), st.integers(-5, -1), st.integers(2 ** 31, 2 ** 40), st.just(1386857206),
+                                                                 st.sampled_from([2 ** 53 + 1, 1758844800123456789, 2 ** 63 - 1, 10 ** 20 + 7]), st.integers(2 ** 53, 2 ** 70)))
     ntop = draw(st.integers(1, max_top))
     tops = []
     for vid in draw(st.lists(ti_id, min_size=ntop, max_size=ntop, unique=True)):
